@@ -28,7 +28,9 @@ def main():
                     lines.append(l[1:].strip()); desc.append(l)
             continue
         lines.append("NEW 0 " + kind); desc.append("")
-        lines.append("PROG 0 " + common.hexs(body)); desc.append(body)
+        for bl in body.split("\n"):
+            if bl.strip():
+                lines.append("PROG 0 " + common.hexs(bl)); desc.append(bl)
     m, i, dis = common.differential(lines)
     for k in range(len(lines)):
         if desc[k]:
